@@ -34,6 +34,11 @@ func scanLeanModel(leanRoot string) {
 		if strings.Contains(p, string(filepath.Separator)+"Generated"+string(filepath.Separator)) || strings.Contains(p, ".lake") {
 			return nil
 		}
+		// definitions of proof modules and drivers are never in scope of a generated file (which they import): a proof-side
+		// `def signClaims` must not hide a Go helper of the same name from autofollow
+		if strings.Contains(p, string(filepath.Separator)+"Proofs"+string(filepath.Separator)) || strings.Contains(p, string(filepath.Separator)+"Driver"+string(filepath.Separator)) {
+			return nil
+		}
 		src, err := os.ReadFile(p)
 		if err != nil {
 			return nil
@@ -206,15 +211,24 @@ func (g *genCtx) autoHelpers(sp *FuncSpec, src string, depth int) string {
 		}
 		hfd, hfile := g.packageFunc(sp.File, name)
 		if hfd == nil {
+			if os.Getenv("FACTGEN_AUTODEBUG") != "" {
+				println("autofollow:", name, "not a function of the package of", sp.File)
+			}
 			continue
 		}
 		hsp, ok := inferSpec(hfd, hfile, sp)
 		if !ok {
+			if os.Getenv("FACTGEN_AUTODEBUG") != "" {
+				println("autofollow: signature of", name, "does not qualify")
+			}
 			continue
 		}
 		hsp.Auto = true
 		hsrc, unsup := translateFunc(g.fset, hfd, &hsp)
 		if len(unsup) > 0 || strings.Contains(hsrc, "UNSUPPORTED") {
+			if os.Getenv("FACTGEN_AUTODEBUG") != "" {
+				println("autofollow:", name, "does not translate:", strings.Join(unsup, "; "), "\n"+hsrc)
+			}
 			continue
 		}
 		translatedFuncs[name] = true
